@@ -80,6 +80,7 @@ try:
     runcmd = runcmd.replace("export GOPROXY=off;", "").replace("export GOPROXY=off &&", "").split("#")[0].strip()
     import re as _re
     runcmd = _re.sub(r"^cd \S+ && ", "", runcmd)
+    runcmd = _re.sub(r"^cp \S+ \S+ && ", "", runcmd)
     runcmd = _re.sub(r"^GOPROXY=off ", "", runcmd)
     runcmd = "timeout 900 " + runcmd
     rc0, out0 = sh(runcmd)
